@@ -155,6 +155,32 @@ theorem c19_agent_foreign (pre post : List Entry) (f new : Entry) (hf : f.isCert
 example : agentUpsert [⟨"a".toList, 1, true⟩, ⟨"b".toList, 1, true⟩] ⟨"a".toList, 2, true⟩ =
     [⟨"a".toList, 2, true⟩] := by decide
 
+/-! ## where the private key goes at installation -/
+
+/-- **Installation destination.**  Whatever the environment and whoever listens wherever: the
+private key is handed to a socket only if that socket is the one the user configured
+(`$SSH_AUTH_SOCK`) and something accepts it there; in every other case — in particular with no
+agent configured, regardless of listeners on any other path — it ends in a file of mode 0600. -/
+theorem c19_install_dest (sock : List Char) (listening : List Char → Bool) :
+    (∀ p, installDest sock listening = .agent p → p = sock ∧ sock ≠ [] ∧ listening sock = true) ∧
+    ((sock = [] ∨ listening sock = false) → installDest sock listening = .file 0o600) := by
+  unfold installDest
+  constructor
+  · intro p hp
+    split at hp
+    · rename_i h
+      simp only [Bool.and_eq_true, bne_iff_ne, ne_eq] at h
+      injection hp with hp
+      exact ⟨hp.symm, h.1, h.2⟩
+    · cases hp
+  · intro h
+    rcases h with h | h <;> simp [h]
+
+/-- the only place the client picks an agent socket reads as when `installDest` was written:
+`$SSH_AUTH_SOCK`, nothing else -/
+theorem c19_agent_location_source :
+    KM.Gen.connectToDefaultSSHAgentLocationSrc = "{ if runtime.GOOS == \"windows\" { return npipe.Dial(`\\\\.\\pipe\\openssh-ssh-agent`) } socket := os.Getenv(\"SSH_AUTH_SOCK\") return net.Dial(\"unix\", socket) }".toList := rfl
+
 /-! ## where private keys go (regenerated tables) -/
 
 def useOK (pkg : ClientPkg) : KeyUse → Bool
